@@ -97,19 +97,24 @@ def check_wrapper(ctx, tu, f, counter):
         ctx.ob('C16.W1', f, 'the listener receives the trigger\'s arguments in order', got == want,
                detail='passed %s' % [pstr(path(f, a)) for a in args])
     # removal
-    rcalls = [n for n in f.calls() if (f.callee(n) or {}).get('name') in ('removeListener', 'remove') and f.call_obj(n)
-              and data_field(path(f, f.call_obj(n))) in ('dispatcher', 'callbackList')]
-    ctx.ob('C16.W1', f, 'the wrapper removes through exactly one call on its own target', len(rcalls) == 1, detail='%d removal calls' % len(rcalls))
-    if len(rcalls) == 1:
+    def is_removal(h, n):
+        return (h.callee(n) or {}).get('name') in ('removeListener', 'remove') and h.call_obj(n) and \
+            data_field(path(h, h.call_obj(n))) in ('dispatcher', 'callbackList')
+    # the removal may sit in a small private helper of the wrapper (doRemoveSelf()): the helper call is then the removal site
+    deep = f.deep_calls(is_removal, depth=1)
+    rcalls = sorted({t for (t, h, m) in deep})
+    ctx.ob('C16.W1', f, 'the wrapper removes through exactly one call on its own target', len(rcalls) == 1 and len(deep) == 1, detail='%d removal calls' % len(deep))
+    if len(rcalls) == 1 and len(deep) == 1:
         r = rcalls[0]
-        a = f.call_args(r)
+        rh, rm = deep[0][1], deep[0][2]
+        a = rh.call_args(rm)
         fields = []
         for x in a:
-            y = f.strip_all_casts(x)
-            while f.is_construct(y) and len(f.nodes[y].get('args', [])) == 1:
-                y = f.strip_all_casts(f.nodes[y]['args'][0])
-            fields.append(data_field(path(f, y)))
-        want = ['event', 'handle'] if f.callee(r)['name'] == 'removeListener' else ['handle']
+            y = rh.strip_all_casts(x)
+            while rh.is_construct(y) and len(rh.nodes[y].get('args', [])) == 1:
+                y = rh.strip_all_casts(rh.nodes[y]['args'][0])
+            fields.append(data_field(path(rh, y)))
+        want = ['event', 'handle'] if rh.callee(rm)['name'] == 'removeListener' else ['handle']
         ctx.ob('C16.W1', f, 'the removed handle is the wrapper\'s own (data->handle%s)' % (', data->event' if len(want) == 2 else ''), fields == want,
                detail='removal arguments: %s' % fields, where=f.nloc(r))
         if lcalls:
@@ -277,19 +282,31 @@ def check_add(ctx, tu, f):
     ctx.ob('C16.W3', f, 'the caller receives that handle', okr)
     # Data initialiser: first = own count/condition parameter, then the target, then (event,) listener from own parameters
     inits = [n for n, o in f.nodes.items() if o['cls'] == 'InitListExpr' and tu.tstr(o.get('t')).endswith('::Data')]
+    host, binding = f, None
+    if not inits:
+        # the state may be built by a private helper that receives the add function's own arguments (doCreateData(count, event, listener))
+        for n in f.calls():
+            for g in f.callee_fns(n):
+                gi = [m for m, o in g.nodes.items() if o['cls'] == 'InitListExpr' and tu.tstr(o.get('t')).endswith('::Data')]
+                if gi and g.clsq == f.clsq:
+                    host, inits = g, gi
+                    binding = {p_['id']: path(f, f.value_source(a), resolve_refs=False) for p_, a in zip(g.params, f.call_args(n))}
     oki = len(inits) >= 1
     detail = ''
     if oki:
         il = inits[0]
-        fields = f.nodes[il].get('fields', [])
-        ks = f.kids(il)
+        fields = host.nodes[il].get('fields', [])
+        ks = host.kids(il)
         pids = f.param_ids()
         vals = {}
         for fld, k in zip(fields, ks):
-            x = f.strip_all_casts(k)
-            while f.is_construct(x) and len(f.nodes[x].get('args', [])) == 1:
-                x = f.strip_all_casts(f.nodes[x]['args'][0])
-            vals[fld] = path(f, x)
+            x = host.strip_all_casts(k)
+            while host.is_construct(x) and len(host.nodes[x].get('args', [])) == 1:
+                x = host.strip_all_casts(host.nodes[x]['args'][0])
+            px = path(host, x)
+            if binding is not None and len(px) == 1 and root_var_id(px) in binding:
+                px = binding[root_var_id(px)]          # the helper's parameter stands for the add function's argument
+            vals[fld] = px
         first = fields[0] if fields else None
         want_param = {'triggerCount': 'triggerCount', 'shouldRemove': 'condition'}.get(first)
 
